@@ -142,6 +142,42 @@ func c18Server(r *vf.Run, t *testing.T, id string, rng *rand.Rand) {
 		failed = true
 	}
 	res := rt.RunBubble(t, id, 60*time.Second, func() {
+		if rng.Intn(12) == 0 {
+			// an invalid value in the client's very first SETTINGS frame
+			bad := []wire.Setting{{ID: 2, Val: 2}, {ID: 4, Val: 1 << 31}, {ID: 5, Val: 16383}, {ID: 5, Val: 1 << 24}}[rng.Intn(4)]
+			pre := []wire.Setting{bad}
+			if rng.Intn(2) == 0 {
+				pre = append(pre, wire.Setting{ID: bad.ID, Val: map[uint16]uint32{2: 0, 4: 65535, 5: 16384}[bad.ID]})
+			}
+			want := uint32(1)
+			if bad.ID == 4 {
+				want = 3
+			}
+			replay["invalid_setting_in_client_preface"] = fmt.Sprint(pre)
+			e := rt.NewServerEnv(id, rt.ServerOpts{MaxConcurrentStreams: m, PeerSettings: pre})
+			e.P.Write(simpleGet(e.P, 1, id+".1"))
+			rt.Wait()
+			ok := false
+			for _, f := range e.P.Frames() {
+				if f.Type == wire.TGoAway {
+					ok = true
+					if f.Code != want {
+						fail("invalid-setting-wrong-code", fmt.Sprintf("first SETTINGS %v answered with GOAWAY(%s), RFC 7540 6.5.2 wants %s", pre, errName(f.Code), errName(want)))
+					}
+				}
+			}
+			if done, _ := e.P.ReadState(); done {
+				ok = true
+			}
+			recs, _, _, _ := e.H.Snapshot()
+			if !ok || len(recs) > 0 {
+				fail("invalid-setting-accepted", fmt.Sprintf("the client's first SETTINGS frame %v was not treated as a connection error (handlers run afterwards: %d)", pre, len(recs)))
+			}
+			kinds = append(kinds, "invalid-preface")
+			r.Inc("invalid_client_prefaces", 1)
+			e.Finish()
+			return
+		}
 		e := rt.NewServerEnv(id, rt.ServerOpts{MaxConcurrentStreams: m, MaxHeaderListSize: hdrLimit})
 		ps := defaultPeerSettings()
 		bc := &blockChecker{dec: hpackref.NewDec(4096)}
@@ -354,6 +390,31 @@ func c18Client(r *vf.Run, t *testing.T, id string, rng *rand.Rand) {
 	}
 	res := rt.RunBubble(t, id, 60*time.Second, func() {
 		first := randSettings(rng, false)
+		if rng.Intn(12) == 0 {
+			// an invalid value in the server's connection preface itself
+			bad := []wire.Setting{{ID: 2, Val: 2}, {ID: 4, Val: 1 << 31}, {ID: 5, Val: 16383}, {ID: 5, Val: 1 << 24}}[rng.Intn(4)]
+			pre := []wire.Setting{bad}
+			if rng.Intn(2) == 0 {
+				pre = append(pre, wire.Setting{ID: bad.ID, Val: map[uint16]uint32{2: 0, 4: 65535, 5: 16384}[bad.ID]})
+			}
+			replay["invalid_setting_in_server_preface"] = fmt.Sprint(pre)
+			e := rt.NewClientEnv(id, rt.ClientOpts{PeerSettings: pre})
+			if e.HandshakeErr == nil {
+				c := e.Do(id+".x", func(req *fasthttp.Request) { req.SetRequestURI("https://s.example/x") })
+				rt.Wait()
+				time.Sleep(time.Second)
+				rt.Wait()
+				if len(e.RequestsSeen()) > 0 {
+					fail("invalid-setting-accepted", fmt.Sprintf("the server's preface carried SETTINGS %v; Handshake succeeded and the client opened a stream on the connection", pre))
+				} else if done, err, _ := c.Outcome(); !done || err == nil {
+					fail("invalid-setting-accepted", fmt.Sprintf("the server's preface carried SETTINGS %v; Handshake succeeded and a request was neither sent nor failed (done=%v err=%v)", pre, done, err))
+				}
+			}
+			kinds = append(kinds, "invalid-preface")
+			r.Inc("invalid_server_prefaces", 1)
+			e.Finish()
+			return
+		}
 		e := rt.NewClientEnv(id, rt.ClientOpts{PeerSettings: first})
 		if e.HandshakeErr != nil {
 			fail("handshake", e.HandshakeErr.Error())
